@@ -157,7 +157,12 @@ class Interp:
         if a.kwarg:
             env[a.kwarg.arg] = AV(frozenset({(f"N:{fi.node.lineno}", SAME)}), "cont", UNKNOWN)
         st.block(fi.node.body, env)
-        ret = st.ret if st.ret is not None else OTHER
+        if st.ret is not None:
+            ret = st.ret
+        elif any(isinstance(n, ast.Raise) for n in own_nodes(fi.node)) and not any(isinstance(n, ast.Return) for n in own_nodes(fi.node)):
+            ret = UNKNOWN  # abstract / always-raising body: the concrete override decides
+        else:
+            ret = OTHER
         sm = Summary(ret, st.mutated, st.writes, st.stores, st.unknown_calls, st.env_at)
         sm.calls = st.calls
         return sm
@@ -246,6 +251,8 @@ class Interp:
             out = AV(keep | frozenset({(f"S:{attr}", SAME)}), val.kind if val.kind != "other" else "other", val.elem)
             if val.kind == "other" and not keep:
                 out = AV(frozenset(), "other")
+            if val.kind == "unknown":
+                out = AV(frozenset((o, r) for o, r in out.origins if o != "U"), "arr", val.elem)  # may be an array cached on self
         self._self_attr_cache[key] = out
         return out
 
@@ -417,7 +424,8 @@ class _State:
             recv = self.ev(t.value, env)
             self.stores.append((st, norm(t.value), t.attr, v))
             if isinstance(t.value, ast.Name) and ("SELF", SAME) in env.get(t.value.id, OTHER).origins:
-                env[f"self.{t.attr}"] = v
+                # from now on the object is (also) state cached on self
+                env[f"self.{t.attr}"] = AV(v.origins | frozenset({(f"S:{t.attr}", SAME)}), v.kind, v.elem) if v.kind in ("arr", "unknown") else v
             if t.attr == "shape" and recv.origins and recv.kind in ("arr", "unknown"):
                 self.write(st, AV(frozenset((o, r) for o, r in recv.origins if r == SAME), recv.kind), f"shape assignment `{norm(st)[:50]}`", norm(t.value))
         elif isinstance(t, ast.Subscript):
